@@ -121,8 +121,12 @@ class AnsiDecoder:
         Yields:
             Text: Marked up Text.
         """
-        for line in terminal_text.splitlines():
-            yield self.decode_line(line)
+        # lines end at "\n" (or "\r\n") only: str.splitlines() would also break at NEL, FS/GS/RS, LS and PS and drop them
+        lines = terminal_text.split("\n")
+        if lines[-1] == "":
+            lines.pop()
+        for line in lines:
+            yield self.decode_line(line[:-1] if line.endswith("\r") else line)
 
     def decode_line(self, line: str) -> Text:
         """Decode a line containing ansi codes.
